@@ -12,6 +12,7 @@ mod matrix;
 mod obj;
 mod overhead;
 mod params;
+mod plans;
 mod plancache;
 mod scn;
 mod slabobs;
@@ -56,6 +57,7 @@ fn dispatch(cmd: &str, opts: &util::Opts) {
         "kernels" => kernels::run(opts),
         "slabobs" => slabobs::run(opts),
         "linear" => linear::run(opts),
+        "plans" => plans::run(opts),
         "matrix-replay" => matrix::replay(opts),
         "plancache-replay" => plancache::replay(opts),
         "plancache-log" => plancache::log(opts),
